@@ -333,4 +333,69 @@ class C05i(Obligation):
                       'a defining module takes part in the search iff it lies inside the project (any depth)')
 
 
-OBLIGATIONS = [C05a, C05b, C05f, C05g, C05h, C05i]
+from jedi.inference.names import SubModuleName  # noqa: E402
+
+
+class _Sub(SubModuleName):
+    def __init__(self, tag, api_type, targets):
+        self.tag, self._api_type, self._targets = tag, api_type, targets
+
+    api_type = property(lambda self: self._api_type)
+
+    def goto(self):
+        return list(self._targets)
+
+    def __repr__(self):
+        return '<%s>' % self.tag
+
+
+class _Plain:
+    def __init__(self, tag, api_type, targets):
+        self.tag, self.api_type, self._targets = tag, api_type, targets
+
+    def goto(self):
+        return list(self._targets)
+
+    def __repr__(self):
+        return '<%s>' % self.tag
+
+
+class C05j(Obligation):
+    id = 'C05.j'
+    title = 'defining names: a module name - also the created name of a sub-module import (import a.b) - is followed to the module it stands for'
+    pattern = 'P3 (names with symbolic kind: sub-module name or real name, module or not; goto answers are stand-ins)'
+    assumptions = (
+        'N<=2 defining names, each symbolic in {real name, created sub-module name} x {api_type module, other}; the goto of '
+        'a module-typed name yields one target (a real module name) or the name itself (symbolic)',
+    )
+
+    def configs(self, tier):
+        return [dict(N=n) for n in (1, 2)]
+
+    def scenario(self, ctx, cfg):
+        names = []
+        expected = []
+        for i in range(cfg['N']):
+            is_sub = ctx.flag('name%d_is_submodule_name' % i)
+            is_module = ctx.flag('name%d_is_module' % i)
+            self_target = ctx.flag('name%d_goto_lands_on_itself' % i)
+            target = _Plain('module-of-name%d' % i, 'module', [])
+            target._targets = [target]       # goto on a real module name lands on the same module
+            cls = _Sub if is_sub else _Plain
+            n = cls('name%d' % i, 'module' if is_module else 'statement', [])
+            n._targets = [n] if self_target else [target]
+            names.append(n)
+            if not is_sub:
+                expected.append(n)
+            if is_module and not self_target:
+                expected.append(target)
+        ctx.force(jrefs._resolve_names)
+        out = ctx.call(lambda: list(jrefs._resolve_names(names)))
+        ctx.check(out.exc is None, 'never raises (no endless recursion on self-referring module names)')
+        if out.exc is not None:
+            return
+        ctx.check(len(out.value) == len(expected) and all(a is b for a, b in zip(out.value, expected)),
+                  'real names are kept; every module-typed name, created sub-module names included, contributes its module')
+
+
+OBLIGATIONS = [C05a, C05b, C05f, C05g, C05h, C05i, C05j]
